@@ -10,12 +10,16 @@ def runSort (op : String) (args : List String) : String :=
   match args.mapM inst? with
   | none => "bad-op"
   | some xs =>
+    -- below 1024 elements the transcribed model runs; from 1024 on the model is the specification (the unique
+    -- stable sort, C20.stableSort_unique), computed here with the library merge sort for speed
+    let sortBy {α} [Inhabited α] (lt : α → α → Bool) (l : List α) : List α :=
+      if l.length < 1024 then wikiSort lt l else l.mergeSort (fun a b => !lt b a)
     if op == "q.isort" then
-      let r := wikiSort ltP xs
+      let r := sortBy ltP xs
       joinWith " " (r.map showInst)
     else if op == "q.esort" then
       let ev := xs.zipIdx
-      let r := wikiSort (fun (a b : Inst × Nat) => ltP a.1 b.1) ev
+      let r := sortBy (fun (a b : Inst × Nat) => ltP a.1 b.1) ev
       joinWith " " (r.map fun (i, k) => s!"{showInst i}:{k}")
     else "bad-op"
 
